@@ -105,6 +105,8 @@ def run_batch(pid, stratum, seed, start, n, tier, scratch, env, batch_wall):
                 elif j.get("done"):
                     done = True
                 else:
+                    if j["i"] in got:  # a minimised witness replaces the raw one written before shrinking
+                        recs[:] = [r for r in recs if not (r.get("i") == j["i"] and r.get("s") == j.get("s") and "o" in r)]
                     recs.append(j)
                     got.add(j["i"])
             os.remove(outfile)
